@@ -1,5 +1,5 @@
 Require Import ExtrOcamlBasic.
 From Eupsv Require Import Base.Base Model.Resolve Model.ResolveSpec Generated.Config.
 Extraction "model.ml" keep_types parse_entry entry_str select_vro initial_preferred find_from_vro
-  resolve_request classify designates_in designates wf_db distinct_versions vcmp_simple vmatch_simple
+  resolve_request classify designates_in designates wf_db vcmp_simple vmatch_simple
   site_config default_config pinned_path_quirk.
